@@ -1,0 +1,20 @@
+// SPDX-FileCopyrightText: 2020-present Open Networking Foundation <info@opennetworking.org>
+//
+// SPDX-License-Identifier: Apache-2.0
+
+//go:build verif
+// +build verif
+
+package admin
+
+import (
+	"github.com/onosproject/onos-config/pkg/pluginregistry"
+	"github.com/onosproject/onos-config/pkg/store/v2/configuration"
+	"github.com/onosproject/onos-config/pkg/store/v2/transaction"
+)
+
+// NewServerForVerif builds the admin northbound server for the external verification harness
+func NewServerForVerif(transactions transaction.Store, configurations configuration.Store,
+	pluginRegistry pluginregistry.PluginRegistry) *Server {
+	return &Server{transactionsStore: transactions, configurationsStore: configurations, pluginRegistry: pluginRegistry}
+}
